@@ -671,6 +671,7 @@ func parseDuration(input string) (int64, int32, bool) {
 
 	// Read the integer part.
 	var intp []byte
+	hasInt := true
 	switch {
 	case b[0] == '0':
 		b = b[1:]
@@ -687,6 +688,7 @@ func parseDuration(input string) (int64, int32, bool) {
 
 	case b[0] == '.':
 		// Continue below.
+		hasInt = false
 
 	default:
 		return 0, 0, false
@@ -708,6 +710,10 @@ func parseDuration(input string) (int64, int32, bool) {
 		}
 		// It is not valid if there are more bytes left.
 		if len(b) > 0 {
+			return 0, 0, false
+		}
+		// There needs to be at least an integer or fractional part.
+		if !hasInt && n == 0 {
 			return 0, 0, false
 		}
 		// Pad fractional part with 0s.
